@@ -6,6 +6,11 @@
 pub mod common;
 pub mod bdoc;
 pub mod c18;
+pub mod c01;
 pub mod c04;
 pub mod c05;
+pub mod c06;
+pub mod c08;
 pub mod c12;
+pub mod c14;
+pub mod c20;
